@@ -1039,6 +1039,8 @@ fn templates() -> Vec<(&'static str, &'static str, Node)> {
             "load-configuration",
             reply(vec![el("load-configuration-results", vec![err_node(1, "error"), tok("load-error-count", "1")])]),
         ),
+        // results that say nothing but "no errors counted": neither a positive indication nor an error
+        ("load-count-only", "load-configuration", reply(vec![el("load-configuration-results", vec![tok("load-error-count", "0")])])),
         ("load-warning-ok", "load-configuration", reply(vec![el("load-configuration-results", vec![err_node(1, "warning"), el("ok", vec![])])])),
     ]
 }
